@@ -102,6 +102,7 @@ def install(ctx):
     watch(EM, "save_performance_midi", "save_performance_midi", 0, "performance_data", ctx)
     watch(EMA, "save_match", "save_match", (0, 1, 2), ("alignment", "performance_data", "score_data"), ctx)
     watch(EMA, "matchfile_from_alignment", "matchfile_from_alignment", 0, "alignment", ctx)
+    watch(S, "unfold_part_alignment", "unfold_part_alignment", (0, 1), ("part", "alignment"), ctx)
     watch(M, "note_array_from_part", "note_array_from_part", 0, "part", ctx)
     watch(M, "note_array_from_part_list", "note_array_from_part_list", 0, "part_list", ctx)
     watch(M, "rest_array_from_part", "rest_array_from_part", 0, "part", ctx)
@@ -394,6 +395,10 @@ def run_item(ctx, item):
             return ppart.note_array()
         run_pair_checks(ctx, [("save_match", sm), ("Part.note_array", na_), ("PerformedPart.note_array", pna_)], rng,
                         "alignment+performance+score", core.digest(case.perf) + str(item[1]), nobj)
+        if may_unfold:
+            # unfolding a part along an alignment (what save_match does for assume_unfolded=False), called directly:
+            # the alignment is an argument like the part
+            ctx.try_call(S.unfold_part_alignment, case.part, [dict(a_) for a_ in alignment])
     elif kind == "divchange":
         # configurations the shared generator does not make: the divisions change INSIDE a measure, at a position where an
         # object starts, inside a note, or in a silent stretch where the timeline has no time point at all
